@@ -102,6 +102,9 @@ class Spec(object):
             return ("raise", TypeError, b[1])
         if b[0] == "unconvertible":
             return ("unconvertible",)
+        if b[0] == "planned":
+            # the harness plans each return value before the call (a FIFO for batches)
+            return ("return", b[1].popleft())
         raise AssertionError(b)
 
     def build(self, log):
